@@ -82,9 +82,12 @@ func (p *Prog) within(fn, F *ssa.Function, seen map[*ssa.Function]bool) bool {
 		return true
 	}
 	if seen[fn] {
-		return false
+		// on the current path already (recursion, direct or mutual): this call site is decided
+		// by the function's other callers
+		return true
 	}
 	seen[fn] = true
+	defer delete(seen, fn)
 	if fn.Parent() != nil {
 		return p.within(fn.Parent(), F, seen)
 	}
@@ -95,22 +98,20 @@ func (p *Prog) within(fn, F *ssa.Function, seen map[*ssa.Function]bool) bool {
 		return false
 	}
 	cs := p.CallersOf(fn)
-	if len(cs) == 0 {
-		return false
-	}
+	n := 0
 	for _, c := range cs {
 		if _, isGo := c.(*ssa.Go); isGo {
 			return false
 		}
+		if Outermost(c.Parent()) == fn {
+			continue // self-recursion
+		}
+		n++
 		if !p.within(c.Parent(), F, seen) {
-			// allow re-visits through another path
-			delete(seen, c.Parent())
-			if !p.within(c.Parent(), F, seen) {
-				return false
-			}
+			return false
 		}
 	}
-	return true
+	return n > 0
 }
 
 // Scope returns F, its nested closures and its private helpers (with their
